@@ -1184,3 +1184,149 @@ Proof.
   split; [constructor; [vm_compute; reflexivity|constructor]|].
   split; vm_compute; reflexivity.
 Qed.
+
+(** * The lines of a log file, and archive completeness with respect to WAL replay *)
+
+Definition no_nl (l : bytes) : Prop := forallb (fun x => negb (x =? 10)) l = true.
+
+Lemma split_on_nonempty : forall c s, exists h t, split_on c s = h :: t.
+Proof.
+  intros c s. induction s as [|x s IH]; cbn [split_on]; [eauto|].
+  destruct (x =? c); [eauto|]. destruct IH as (h & t & ->). eauto.
+Qed.
+
+Lemma split_on_app_sep : forall c a r, split_on c (a ++ c :: r) = split_on c a ++ split_on c r.
+Proof.
+  intros c a r. induction a as [|x a IH]; cbn [app split_on].
+  - rewrite N.eqb_refl. reflexivity.
+  - destruct (x =? c); [rewrite IH; reflexivity|].
+    rewrite IH. destruct (split_on_nonempty c a) as (h & t & ->). reflexivity.
+Qed.
+
+Lemma split_on_no_sep : forall c l, forallb (fun x => negb (x =? c)) l = true -> split_on c l = [l].
+Proof.
+  intros c l. induction l as [|x l IH]; intro H; cbn [split_on]; [reflexivity|].
+  cbn [forallb] in H. apply andb_true_iff in H. destruct H as [H1 H2]. apply negb_true_iff in H1.
+  rewrite H1, (IH H2). reflexivity.
+Qed.
+
+Lemma lines_of_pieces_app : forall A R, R <> [] -> lines_of_pieces (A ++ R) = map strip_cr A ++ lines_of_pieces R.
+Proof.
+  induction A as [|p A IH]; intros R HR; [reflexivity|].
+  cbn [app map]. rewrite <- (IH R HR). cbn [lines_of_pieces].
+  destruct (A ++ R) eqn:E; [|reflexivity].
+  apply app_eq_nil in E. destruct E as [_ E]. contradiction.
+Qed.
+
+Lemma split_lines_app_nl : forall a r, split_lines (a ++ 10 :: r) = map strip_cr (split_on 10 a) ++ split_lines r.
+Proof.
+  intros a r. unfold split_lines. rewrite split_on_app_sep. apply lines_of_pieces_app.
+  destruct (split_on_nonempty 10 r) as (h & t & ->). discriminate.
+Qed.
+
+Lemma split_lines_terminated : forall a, split_lines (a ++ [10]) = map strip_cr (split_on 10 a).
+Proof. intro a. rewrite split_lines_app_nl. cbn. apply app_nil_r. Qed.
+
+Lemma split_lines_app : forall a r, split_lines (a ++ 10 :: r) = split_lines (a ++ [10]) ++ split_lines r.
+Proof. intros a r. rewrite split_lines_app_nl, split_lines_terminated. reflexivity. Qed.
+
+Lemma split_lines_single : forall l, no_nl l -> l <> [] -> split_lines l = [l].
+Proof.
+  intros l H Hne. unfold split_lines. rewrite (split_on_no_sep 10 l H). cbn [lines_of_pieces].
+  destruct l; [congruence|reflexivity].
+Qed.
+
+Lemma strip_cr_crlf : forall l, strip_cr (l ++ [13]) = l.
+Proof.
+  intro l. unfold strip_cr. rewrite <- !rev_alt, rev_app_distr. cbn [rev app]. rewrite N.eqb_refl, <- rev_alt.
+  apply rev_involutive.
+Qed.
+
+(** the final-line shapes *)
+Lemma file_lines_empty : forall cls, file_lines cls [] = [].
+Proof. reflexivity. Qed.
+Lemma file_lines_only_newline : forall cls, file_lines cls [10] = [cls []].
+Proof. reflexivity. Qed.
+
+(** a file is a run of terminated lines followed by a last line without newline: the last line is a line *)
+Theorem last_line_without_newline : forall cls pre l,
+  (pre = [] \/ exists b, pre = b ++ [10]) -> no_nl l -> l <> [] ->
+  file_lines cls (pre ++ l) = file_lines cls pre ++ [cls l].
+Proof.
+  intros cls pre l Hpre Hl Hne. unfold file_lines.
+  destruct Hpre as [->|(b & ->)].
+  - cbn [app]. rewrite (split_lines_single l Hl Hne). reflexivity.
+  - rewrite <- app_assoc. cbn [app]. rewrite split_lines_app, (split_lines_single l Hl Hne), map_app. reflexivity.
+Qed.
+
+(** "\r\n" terminates a line like "\n" *)
+Theorem crlf_terminated_line : forall cls pre l,
+  (pre = [] \/ exists b, pre = b ++ [10]) -> no_nl l ->
+  file_lines cls (pre ++ l ++ [13; 10]) = file_lines cls pre ++ [cls l].
+Proof.
+  intros cls pre l Hpre Hl. unfold file_lines.
+  assert (E : split_lines (l ++ [13; 10]) = [l]).
+  { change (l ++ [13; 10]) with (l ++ [13] ++ [10]). rewrite app_assoc, split_lines_terminated.
+    rewrite (split_on_no_sep 10 (l ++ [13])).
+    - cbn [map]. rewrite strip_cr_crlf. reflexivity.
+    - unfold no_nl in Hl. rewrite forallb_app, Hl. reflexivity. }
+  destruct Hpre as [->|(b & ->)].
+  - cbn [app]. rewrite E. reflexivity.
+  - rewrite <- app_assoc. cbn [app]. rewrite split_lines_app, E, map_app. reflexivity.
+Qed.
+
+Lemma replay_entries_app : forall a b, replay_entries (a ++ b) = replay_entries a ++ replay_entries b.
+Proof.
+  induction a as [|l a IH]; intro b; cbn [app replay_entries]; [reflexivity|].
+  destruct l; rewrite IH; reflexivity.
+Qed.
+
+(** what the archiver reads from a file is what WAL replay would restore from it *)
+Lemma parse_lines_replay : forall ls es, parse_lines ls = Some es -> es = replay_entries ls.
+Proof.
+  induction ls as [|l ls IH]; intros es H; cbn [parse_lines replay_entries] in *.
+  - inversion H. reflexivity.
+  - destruct l as [| | |j]; try discriminate; auto.
+    destruct (parse_lines ls) as [es'|]; [|discriminate]. inversion H. f_equal. auto.
+Qed.
+
+(** Archive completeness: a log file that is gone after a conservative cleanup has an archive that
+    returns exactly the entries WAL replay would have restored from that file, in order. *)
+Theorem archive_complete_for_replay : forall fl w keep w' res n ls,
+  NoDup (names (cleaner_dir w)) -> Forall line_wf ls ->
+  cleanup_up_to true fl w keep = (w', res) ->
+  In (n, WFile ls) (cleaner_dir w) -> lookup n (cleaner_dir w') = None ->
+  exists id f, n = log_name id /\ a_log_id f = id /\
+               root_lookup (afile_name f) (w_root w') = Some (AFile f) /\
+               a_entries f = replay_entries ls.
+Proof.
+  intros fl w keep w' res n ls ND Hwf H Hin Hgone.
+  destruct (deleted_implies_archived _ _ _ _ _ _ _ ND H Hin Hgone) as (id & es & En & _ & EP & Hh).
+  exists id, (make_archive id es). repeat split; try assumption.
+  rewrite (archive_roundtrip_lossless id ls es Hwf EP). apply parse_lines_replay. exact EP.
+Qed.
+
+(** … in particular for a file whose last line is a complete entry without a trailing newline (what a
+    crash between the writer's two writes leaves): the entry is in the archive. *)
+Theorem unterminated_last_entry_archived : forall fl w keep w' res n cls pre l j,
+  NoDup (names (cleaner_dir w)) -> Forall line_wf (file_lines cls (pre ++ l)) ->
+  (pre = [] \/ exists b, pre = b ++ [10]) -> no_nl l -> l <> [] -> cls l = LEntry j ->
+  cleanup_up_to true fl w keep = (w', res) ->
+  In (n, WFile (file_lines cls (pre ++ l))) (cleaner_dir w) -> lookup n (cleaner_dir w') = None ->
+  exists f, root_lookup (afile_name f) (w_root w') = Some (AFile f) /\
+            a_entries f = replay_entries (file_lines cls pre) ++ [entry_of_json j].
+Proof.
+  intros fl w keep w' res n cls pre l j ND Hwf Hpre Hl Hne Hc H Hin Hgone.
+  destruct (archive_complete_for_replay _ _ _ _ _ _ _ ND Hwf H Hin Hgone) as (id & f & _ & _ & Hr & He).
+  exists f. split; [exact Hr|]. rewrite He, (last_line_without_newline cls pre l Hpre Hl Hne), replay_entries_app, Hc.
+  reflexivity.
+Qed.
+
+Example ex_unterminated_last_entry :
+  let cls := fun b => if bytes_eqb b [65] then wit_line 5 1 else if bytes_eqb b [66] then wit_line 6 2 else LJunk in
+  (* content "A\r\nB" : entry, CRLF, entry without newline *)
+  let w := mkWorld [(log_name 0, WFile (file_lines cls [65; 13; 10; 66]))] None RMissing in
+  let r := cleanup_up_to true no_faults w 1 in
+  file_lines cls [65; 13; 10; 66] = [wit_line 5 1; wit_line 6 2] /\
+  w_wal (fst r) = [] /\ recover_all (w_root (fst r)) = Some [wit_entry 5 1; wit_entry 6 2].
+Proof. vm_compute. repeat split; reflexivity. Qed.
